@@ -33,10 +33,12 @@ pub struct Dyn {
 
 #[derive(Clone, Copy, Debug, PartialEq, Eq)]
 pub enum Entry {
-    /// `Document::set_field` + `Schema::validate`
+    /// `Document::set_field`
     Set,
-    /// `Document::try_from(&Dyn)` + `Schema::validate`
+    /// `Document::try_from(&Dyn)`
     TryFrom,
+    /// `Document::set_field_as(&value)` (typed field-by-field entry)
+    SetAs,
 }
 
 impl Entry {
@@ -44,6 +46,7 @@ impl Entry {
         match self {
             Entry::Set => "set_field",
             Entry::TryFrom => "try_from",
+            Entry::SetAs => "set_field_as",
         }
     }
 }
@@ -206,11 +209,19 @@ fn write(case: &Case, entry: Entry) -> Written {
                 Err(e) => return Written::Rejected(format!("try_from: {e}")),
             }
         }
+        Entry::SetAs => {
+            let mut doc = Document::new(schema.clone());
+            doc.set_id(1);
+            if let Err(e) = doc.set_field_as(FIELD, case.value) {
+                return Written::Rejected(format!("set_field_as: {e}"));
+            }
+            doc
+        }
     };
-    // what `Collection::add` does before anything is stored
-    if let Err(e) = schema.validate(doc.fields()) {
-        return Written::Rejected(format!("validate: {e}"));
-    }
+    // A Document the entry point handed out is an accepted write: anything
+    // that serialises it stores it. (`Collection::add` re-runs
+    // `Schema::validate`; a document that would fail there also fails
+    // `try_from_doc` below and is reported as accepted-unreadable.)
     // the stored form (`Storage::put`): CBOR of the Document
     let mut bytes = Vec::new();
     if let Err(e) = cbor2::to_writer(&doc, &mut bytes) {
@@ -239,7 +250,7 @@ pub fn run_case(case: &Case, entry: Entry, t: &mut Tally) {
             let w = if c == Class::Valid { Some(model::declared(ft, case.value)) } else { None };
             (c, w)
         }
-        Entry::TryFrom => match model::classify_extract(ft, case.value) {
+        Entry::TryFrom | Entry::SetAs => match model::classify_extract(ft, case.value) {
             Extract::Accept(d) => (Class::Valid, Some(d)),
             Extract::Reject => (Class::Invalid, None),
             Extract::Unspec => (Class::Unspec, None),
@@ -279,6 +290,8 @@ pub fn run_case(case: &Case, entry: Entry, t: &mut Tally) {
         let back = read_back(case.schema, &bytes);
         let typed: Option<Result<Dyn, String>> = match (&back, entry) {
             (Ok(b), Entry::TryFrom) => Some(b.clone().try_into::<Dyn>().map_err(|e| e.to_string())),
+            // typed read side of the field-by-field entry
+            (Ok(b), Entry::SetAs) => Some(b.get_field_as::<Fv>(FIELD).map(|v| Dyn { _id: 1, v }).map_err(|e| e.to_string())),
             _ => None,
         };
         Ok((stored, back, typed))
@@ -357,9 +370,9 @@ pub fn run_case(case: &Case, entry: Entry, t: &mut Tally) {
                         t,
                         "typed-differs",
                         skeleton(ft),
-                        format!("try_into gives {} for written {}", short(&d.v), short(&want)),
+                        format!("try_into / get_field_as gives {} for written {}", short(&d.v), short(&want)),
                     ),
-                    Err(e) => fail(t, "typed-fails", skeleton(ft), format!("try_into fails: {e}")),
+                    Err(e) => fail(t, "typed-fails", skeleton(ft), format!("try_into / get_field_as fails: {e}")),
                 }
             }
             if t.samples.len() < 2 && class == Class::Valid && !matches!(case.value, Fv::Null) && case.mutated {
